@@ -113,7 +113,7 @@ func Check(w *symex.World, plan *Plan, opt Options) int {
 		assertsSMT += ex.AssertsSMT
 		triv += ex.AssertsTriv
 		steps += ex.Steps
-		if ex.AssertsSMT > 0 || len(ex.Failures) > 0 {
+		if len(ex.SymKinds) > 0 && ex.AssertsTotal > 0 {
 			nontrivial++
 		}
 		if ex.AssertsTotal == 0 && len(ex.Incon) == 0 {
@@ -292,7 +292,7 @@ func Check(w *symex.World, plan *Plan, opt Options) int {
 			"samples":                        samples,
 			"evaluations":                    len(jobs),
 			"distinct_nontrivial":            nontrivial,
-			"rule":                           "one evaluation = one structural case explored symbolically (all feasible paths); non-trivial = at least one assertion needed a solver query (not decided by constant folding); states = feasible paths; transitions = solver queries",
+			"rule":                           "one evaluation = one structural case explored symbolically (all feasible paths); non-trivial = the case has at least one solver variable and reached at least one assertion (assertions are decided by the solver, or by term identity when both sides are the same symbolic term); states = feasible paths; transitions = solver queries",
 			"exhaustive":                     plan.Exhaustive && len(incon) == 0,
 			"technique":                      "symbolic execution of gonnx's go/ssa form (regenerated from /repo on this run) + SMT (z3), gorgonia executed natively on shadow tensors",
 			"structural_cases":               len(jobs),
